@@ -16,7 +16,7 @@ for i in range(1, 21):
         if e.get('kind', 'main') != 'twin' and 'twin=' not in e['obligation']:
             cost[fn].append(e.get('cpu_s', 0))
     tot = 0; parts = []
-    cnt = collections.Counter(o.fn for o in m.obligations() if 'thorough' in o.tiers and o.main)
+    cnt = collections.Counter(o.fn for o in m.obligations() if ('thorough' in o.tiers or 'quick' in o.tiers) and o.main)
     for fn, n in cnt.items():
         avg = (sum(cost[fn]) / len(cost[fn])) if cost[fn] else 0
         mx = max(cost[fn]) if cost[fn] else 0
